@@ -446,12 +446,55 @@ func runC17(c *Ctx) {
 				}
 			}
 			c.Check("C17.R7", funcKey(sent)+":arms-global-deadline", sent.Pos(), okArm && len(arms) == 1, "the global timer is created once, with the resolved GlobalTimeout, when the request has been sent", "the request-sent path does not arm exactly one global timer with timeout.GlobalTimeout")
-			re := timerStores(staticReach([]*ssa.Function{retry}, pp))
+			// a retry may arm the global timer only when it was never armed: behind the false edge of the "request was sent"
+			// flag, through the function that sets that flag together with the timer (a first try that failed before the
+			// request was completely sent has no deadline running yet). Nothing in the package may clear the flag again.
+			flagSetBy := func(f *ssa.Function) bool {
+				for _, st := range storesToField(f, ".downStream", "upstreamRequestSent", false) {
+					if b, ok := constBool(st.Val); ok && b && unconditionalIn(st) {
+						return true
+					}
+				}
+				return false
+			}
+			flagCleared := false
+			for _, f := range c.PkgFuncs(pp) {
+				for _, st := range storesToField(f, ".downStream", "upstreamRequestSent", true) {
+					if b, ok := constBool(st.Val); !ok || !b {
+						flagCleared = true
+					}
+				}
+			}
+			var re []*ssa.Store
+			for _, st := range storesToField(retry, ".downStream", "responseTimer", false) {
+				if !isNilConst(st.Val) {
+					re = append(re, st)
+				}
+			}
+			firstArm := 0
+			for _, cs := range callsIn(retry, true, func(cc *ssa.CallCommon) bool { return cc.StaticCallee() != nil }) {
+				callee := cs.Instr.Common().StaticCallee()
+				via := timerStores(staticReach([]*ssa.Function{callee}, pp))
+				if len(via) == 0 {
+					continue
+				}
+				neverSent := false
+				for _, g := range guardsAt(cs.Instr.Block()) {
+					if _, f, _, ok := loadedField(g.Cond); ok && f == "upstreamRequestSent" && !g.True {
+						neverSent = true
+					}
+				}
+				if neverSent && flagSetBy(callee) && !flagCleared && cs.Fn == retry {
+					firstArm++
+					continue
+				}
+				re = append(re, via...)
+			}
 			pos := retry.Pos()
 			if len(re) > 0 {
 				pos = re[0].Pos()
 			}
-			c.Check("C17.R7", funcKey(retry)+":retry-keeps-global-deadline", pos, len(re) == 0, "a retry arms only the per-try timer; the global deadline keeps running from the first send", "a retry re-arms the global response timer: every retry restarts the configured timeout from zero, so the request is no longer ended at the configured deadline")
+			c.Check("C17.R7", funcKey(retry)+":retry-keeps-global-deadline", pos, len(re) == 0, fmt.Sprintf("a retry arms only the per-try timer; the global deadline keeps running from the first send (%d arming call(s) behind the never-sent edge)", firstArm), "a retry re-arms the global response timer: every retry restarts the configured timeout from zero, so the request is no longer ended at the configured deadline")
 			per := 0
 			for f := range staticReach([]*ssa.Function{retry}, pp) {
 				for _, st := range storesToField(f, ".downStream", "perRetryTimer", false) {
